@@ -354,7 +354,10 @@ def handle (cmd : String) (hd : List String) (vs : List (List K)) : Reply K :=
       -- eigenpsd P nfft nsig ev | S | col_0 | col_1 ...   (col_i = V[0:P, i] of the code)
       let nfft := natAt hd 1
       needTw nfft (fun t =>
-        .ok [eigenPsd t (vs.drop 1) (vecAt vs 0) (natAt hd 2) (natAt hd 0) nfft (natAt hd 3 = 1)])
+        -- section 0 holds the singular values followed by the machine epsilon used by the divisor floor
+        let Sraw := (vecAt vs 0).dropLast
+        let eps := nth (vecAt vs 0) Sraw.length
+        .ok [eigenPsd t (vs.drop 1) (floorS Sraw eps) (natAt hd 2) (natAt hd 0) nfft (natAt hd 3 = 1)])
   | "eigenclass" => .ok [eigenClassFold (vecAt vs 0) (natAt hd 0 = 1) (natAt hd 1)]
   | "nsigthr" => .ok [[((signalSpace (vecAt vs 0) none (some (scalAt vs 1)) 0 : Nat) : K)]]
   | "eigenvalidate" =>
